@@ -59,8 +59,12 @@ def known_findings():
 def run_one(P, case, W, stats):
     try:
         res = P.run(case, W)
-    except Exception:
-        res = Result(violation=("harness-exception", traceback.format_exc()[-3000:]))
+    except Exception as e:
+        if type(e).__name__ == "Unknown":
+            # the reference model says the statements do not define this input (DESIGN section 4): skipped and counted, never judged
+            res = Result(skipped=True, labels=["unknown-domain"])
+        else:
+            res = Result(violation=("harness-exception", traceback.format_exc()[-3000:]))
     stats.note(case, res)
     return res
 
